@@ -389,25 +389,31 @@ func (in *c15Interp) exec(line string) (string, bool) {
 				fmt.Sprintf("C15:run-hang:case=%s", in.caseName), in.s.Replay(in.caseOps))
 			return "hang", false
 		}
+		// a node with fewer than two bytes is not a ledger node: Run must fail with an error (GetKind), never panic
+		short := false
+		for i, s := range in.secs {
+			if uint64(i) >= skip && s.kind < 0 {
+				short = true
+			}
+		}
 		if res.panicked {
 			in.s.Count("run-panicked")
-			// a node with fewer than two bytes makes `data[1]` panic: outside the property (not a ledger node)
-			short := false
-			for i, s := range in.secs {
-				if uint64(i) >= skip && s.kind < 0 {
-					short = true
-				}
-			}
-			if !short {
-				in.s.Violation("Run panics on a CAR made of well-formed nodes: "+res.panicMsg,
-					fmt.Sprintf("C15:run-panic:case=%s", in.caseName), in.s.Replay(in.caseOps))
-			}
+			in.s.Violation("Run panics: "+res.panicMsg,
+				fmt.Sprintf("C15:run-panic:case=%s", in.caseName), in.s.Replay(in.caseOps))
 			return "panic", false
 		}
 		if res.err != nil {
-			in.s.Violation("Run fails on a well-formed CAR: "+res.err.Error(),
-				fmt.Sprintf("C15:run-error:case=%s", in.caseName), in.s.Replay(in.caseOps))
+			if short {
+				in.s.Count("run-error-on-short-node")
+			} else {
+				in.s.Violation("Run fails on a well-formed CAR: "+res.err.Error(),
+					fmt.Sprintf("C15:run-error:case=%s", in.caseName), in.s.Replay(in.caseOps))
+			}
 			return "err", false
+		}
+		if short {
+			in.s.Violation("Run accepts a CAR with an object shorter than two bytes (it has no kind)",
+				fmt.Sprintf("C15:short-node-accepted:case=%s", in.caseName), in.s.Replay(in.caseOps))
 		}
 		if res.maxQueue == res.queueCap {
 			in.s.Count("runs-with-full-queue")
@@ -905,7 +911,7 @@ func (g *c15Gen) generate(thorough bool) {
 		g.run(nil, 23, 0, 2, 5)
 		g.run(c15IgSplit, 2, 3, 4, 7)
 	}
-	// 5. a node with fewer than two bytes: `data[1]` panics (outside the property; the model says so too)
+	// 5. a node with fewer than two bytes: Run returns GetKind's error (the model says so too)
 	for _, n := range []int{0, 1} {
 		c := newC15Car(rng)
 		c.tx(1, 4)
@@ -914,7 +920,7 @@ func (g *c15Gen) generate(thorough bool) {
 		c.block(2, nil)
 		g.emitCar(fmt.Sprintf("short-node-%d", n), c, 1)
 		g.run(c15IgGsfa, 2, 0, 0, 2)
-		g.run(c15IgGsfa, 2, 3, 0, 2) // the short node is skipped: no panic
+		g.run(c15IgGsfa, 2, 3, 0, 2) // the short node is skipped: no error
 	}
 	// 6. more children than the 5 000 preallocation
 	bigs := []int{4999, 5000, 5001, 5003}
